@@ -80,6 +80,8 @@ class Deployment:
         self.pool = self.make_pool(cfg.get("pool", {"kind": "sim", "size": 2}), program.get("faults"))
         self.joker = self.make_joker(self.pool, self.rng)
         self.history = []
+        self.concurrent = []  # calls made by a second caller in the middle of another call's pool.map
+        self.state0 = None
         self.helpers = {}
         self._alias_holder = {}
         self.current_op = None
@@ -90,6 +92,7 @@ class Deployment:
         self.install_batch_tasks_interposer()
         self.run_worker_calls = []
         self.install_run_worker_interposer()
+        self.state0 = self.module_state()
 
     def install_run_worker_interposer(self):
         """Observe what each fan-out was ASKED to cover (rows of the file now / n_prior_samples / index array)."""
@@ -317,6 +320,9 @@ class Deployment:
             pool.begin_op(op.get("id"))
         map_lo = len(getattr(pool, "map_calls", []))
         self.log.add("op-begin", kind, {k: v for k, v in op.items() if k != "id"})
+        if op.get("concurrent") and hasattr(pool, "map_calls"):
+            cc = op["concurrent"]
+            pool.interleave = {"map": cc.get("at_map", 0), "slot": cc.get("at_slot", 0), "fired": False, "fn": lambda: self.run_concurrent(cc["op"], during=op.get("id"))}
         try:
             if kind == "mll":
                 out = joker.marginal_ln_likelihood(
@@ -337,11 +343,186 @@ class Deployment:
             rec["out"] = None
             rec["raised"] = exc_chain(e)
             rec["tb"] = traceback.format_exc()[-1500:]
+        if getattr(pool, "interleave", None):
+            rec["concurrent_fired"] = bool(pool.interleave.get("fired"))
+            pool.interleave = None
+            self.finish_parked_second()  # a suspended second caller finishes after this op has ended
         rec["draw_hi"] = len(self.record.draws)
         rec["maps"] = list(getattr(pool, "map_calls", [])[map_lo:])
         self.log.add("op-end", kind, None, _digestable(rec["out"]) if rec["raised"] is None else {"raised": rec["raised"][0][0]})
         self.history.append(rec)
         return rec
+
+    # -- "the second caller is a forked sibling": module-level state of thejoker as it was when this run started
+    @staticmethod
+    def _simple(val, depth=0):
+        import itertools
+
+        if val is None or isinstance(val, (bool, int, float, str, bytes, itertools.count)):
+            return True
+        if depth < 3 and isinstance(val, (list, tuple, set, frozenset)):
+            return all(Deployment._simple(x, depth + 1) for x in val)
+        if depth < 3 and isinstance(val, dict):
+            return all(Deployment._simple(k, depth + 1) and Deployment._simple(x, depth + 1) for k, x in val.items())
+        return False
+
+    @staticmethod
+    def module_state():
+        import copy
+        import sys
+
+        snap = {}
+        for name, mod in list(sys.modules.items()):
+            if mod is not None and (name == "thejoker" or name.startswith("thejoker.")):
+                snap[name] = {k: copy.deepcopy(x) for k, x in list(vars(mod).items()) if not k.startswith("__") and Deployment._simple(x)}
+        return snap
+
+    @staticmethod
+    def install_module_state(snap):
+        import copy
+        import sys
+
+        for name, d in snap.items():
+            mod = sys.modules.get(name)
+            if mod is None:
+                continue
+            for k, x in d.items():
+                setattr(mod, k, copy.deepcopy(x))
+
+    def run_concurrent(self, nop, during=None):
+        """A whole call by ANOTHER caller (own TheJoker, own generator, the real SerialPool) made while the op `during`
+        is inside pool.map -- or, with during=None, the same call made alone afterwards (its twin).  Nothing of it
+        is recorded on the shared RNG record; it is judged by comparing the two (checks/sampling.check_concurrent).
+
+        With nop["park_at_map"] = k the second caller is itself suspended when it enters its k-th pool.map (its cache
+        file is written by then) and only finishes after the first caller's op has ended: two calls truly overlapping.
+        It runs in a real thread, but the baton is passed explicitly -- exactly one of the two ever runs."""
+        import threading
+
+        import schwimmbad
+
+        w = self.world
+        dep = self
+        rec = {"op": nop, "id": nop.get("id"), "during": during, "out": None, "raised": None}
+        self.log.add("second-caller-begin", nop["op"], {"during": during})
+        forked = bool(nop.get("forked"))
+        tmp_before = self._tmp_listing()
+        ctx = {"state": None, "main_state": None, "saved_op": None, "parked": False, "done": False,
+               "to_second": threading.Event(), "to_main": threading.Event(), "rec": rec, "tmp_before": tmp_before, "nop": nop}
+        park_at = nop.get("park_at_map") if during is not None else None
+
+        class ParkingPool(schwimmbad.SerialPool):
+            n_maps = 0
+
+            def map(self, func, iterable, callback=None):
+                k = ParkingPool.n_maps
+                ParkingPool.n_maps += 1
+                if park_at is not None and k == park_at and not ctx["parked"]:
+                    ctx["parked"] = True
+                    dep.log.add("second-caller-parked", nop["op"], {"map": k})
+                    ctx["to_main"].set()
+                    if not ctx["to_second"].wait(600):
+                        raise RuntimeError("harness: parked second caller was never resumed")
+                    ctx["to_second"].clear()
+                return super().map(func, iterable, callback=callback)
+
+        def body():
+            try:
+                j = dep.make_joker(ParkingPool(), np.random.default_rng(nop.get("rng_seed", 1)))
+                data = w.datasets[nop.get("data", 0)]
+                if nop["op"] == "mll":
+                    out = j.marginal_ln_likelihood(data, dep.source(nop), n_batches=nop.get("n_batches"), in_memory=nop.get("in_memory", False))
+                elif nop["op"] == "rejection":
+                    out = j.rejection_sample(data, dep.source(nop), in_memory=nop.get("in_memory", False), **nop.get("kw", {}))
+                else:
+                    out = j.iterative_rejection_sample(data, dep.source(nop), in_memory=nop.get("in_memory", False), **nop.get("kw", {}))
+                rec["out"] = capture(out)
+            except Exception as e:  # noqa: BLE001 - the second caller's failure is its own; it must never reach the first one
+                rec["raised"] = exc_chain(e)
+                rec["tb"] = traceback.format_exc()[-1200:]
+
+        def thread_main():
+            ctx["to_second"].wait(600)
+            ctx["to_second"].clear()
+            try:
+                body()
+            finally:
+                ctx["done"] = True
+                ctx["to_main"].set()
+
+        if park_at is None:
+            self._enter_second(ctx, forked)
+            try:
+                body()
+            finally:
+                self._leave_second(ctx, forked)
+            ctx["done"] = True
+        else:
+            ctx["thread"] = threading.Thread(target=thread_main, daemon=True)
+            ctx["thread"].start()
+            self._second_step(ctx, forked)
+        if ctx["done"]:
+            self._second_finished(ctx)
+        else:
+            self.parked_second = (ctx, forked)
+        return rec
+
+    def _enter_second(self, ctx, forked):
+        ctx["saved_op"] = self.current_op
+        self.current_op = ctx["nop"].get("id")
+        if forked:
+            # a sibling process forked when this run started: thejoker's module-level state as it was then (and as the
+            # sibling left it when it was suspended), another pid
+            ctx["main_state"] = self.module_state()
+            self.install_module_state(ctx["state"] if ctx["state"] is not None else self.state0)
+            ctx["real_getpid"] = os.getpid
+            real = os.getpid
+            os.getpid = lambda: real() + 1000003
+
+    def _leave_second(self, ctx, forked):
+        self.current_op = ctx["saved_op"]
+        if forked:
+            os.getpid = ctx["real_getpid"]
+            ctx["state"] = self.module_state()
+            self.install_module_state(ctx["main_state"])
+
+    def _second_step(self, ctx, forked):
+        """Hand the baton to the second caller's thread until it parks or finishes."""
+        self._enter_second(ctx, forked)
+        try:
+            ctx["to_second"].set()
+            if not ctx["to_main"].wait(600):
+                raise RuntimeError("harness: second caller neither parked nor finished within 600 s")
+            ctx["to_main"].clear()
+        finally:
+            self._leave_second(ctx, forked)
+
+    def finish_parked_second(self):
+        ps = getattr(self, "parked_second", None)
+        if ps is None:
+            return
+        self.parked_second = None
+        ctx, forked = ps
+        self.log.add("second-caller-resumed", ctx["nop"]["op"])
+        self._second_step(ctx, forked)
+        ctx["thread"].join(30)
+        self._second_finished(ctx)
+
+    def _second_finished(self, ctx):
+        rec, nop = ctx["rec"], ctx["nop"]
+        rec["tmp_left"] = sorted(os.path.basename(x) for x in (self._tmp_listing() - ctx["tmp_before"]))
+        rec["was_parked"] = bool(ctx["parked"])
+        self.log.add("second-caller-end", nop["op"], None, _digestable(rec["out"]) if rec["raised"] is None else {"raised": rec["raised"][0][0]})
+        if rec["during"] is not None:
+            self.concurrent.append(rec)
+
+    def _tmp_listing(self):
+        out = set()
+        rel = self.program["config"].get("joker_tempfile_path_rel")
+        for d in {self.world.tmpdir, os.path.join(self.workdir, rel) if rel else self.world.tmpdir}:
+            if os.path.isdir(d):
+                out |= {os.path.join(d, x) for x in os.listdir(d) if x.endswith((".hdf5", ".h5", ".fits"))}
+        return out
 
     def run_helper_op(self, op):
         import thejoker as tj
@@ -362,7 +543,7 @@ class Deployment:
 
                 arr = None
                 if op.get("with_arr"):
-                    arr = np.arange(1000, 1000 + op["start_idx"] + op["n_tasks"]) * 3
+                    arr = np.arange(1000, 1000 + op["start_idx"] + op["n_tasks"] + int(op.get("arr_extra", 0))) * 3
                     if op.get("arr_dtype"):
                         arr = arr.astype(np.dtype(op["arr_dtype"]))  # e.g. big-endian indices read from a FITS table
                 args = op.get("args")
@@ -501,6 +682,12 @@ def make_observed_serial_pool(log=None, rng_record=None):
                     else t
                     for i, t in enumerate(tasks)
                 ]
+            il = getattr(self, "interleave", None)
+            if il and not il.get("fired") and il.get("map") == self.map_idx - 1:
+                il["fired"] = True  # the real SerialPool has one interleaving point per map: before it runs
+                if self.log is not None:
+                    self.log.add("interleave", "second-caller", {"map": self.map_idx - 1, "slot": "before-serial-map"})
+                il["fn"]()
             return super().map(func, tasks, callback=callback)
 
     return ObservedSerialPool()
